@@ -64,3 +64,7 @@ package jd
 //@   requires validNode(a) && validNode(b)
 //@   ensures_bounded ret0 == ""
 //@   carries C18
+
+//@ contract specSoriEq
+//@   opaque
+//@   trusted
